@@ -211,9 +211,24 @@ pub fn deep_hist_strategy(max_rounds: usize) -> impl Strategy<Value = Hist> {
         })
 }
 
+/// a few large batches (60-150 random labels each, later batches re-publishing parts of them):
+/// deep trees, wide parallel insertion, many decompressions
+pub fn wide_hist_strategy() -> impl Strategy<Value = Hist> {
+    (proptest::collection::vec(proptest::collection::vec(any::<u8>(), 1..6), 60..150), 1usize..4, any::<u16>()).prop_map(|(labels, rounds, salt)| {
+        let n = labels.len() as u32;
+        let selector = |i: u32| ((i as u64 * 65536 + 32768) / n as u64) as u16;
+        let mut batches = vec![Batch { ops: (0..n).map(|i| Op::Set(selector(i), (i as u16).wrapping_mul(salt | 1))).collect(), dup: false }];
+        for r in 0..rounds {
+            batches.push(Batch { ops: (0..n).filter(|i| (i + r as u32) % 3 == 0).map(|i| Op::Bump(selector(i))).collect(), dup: false });
+        }
+        Hist { key: 0, labels, values: vec![b"a".to_vec(), vec![], b"bb".to_vec()], batches }
+    })
+}
+
 pub fn mixed_hist_strategy(max_e: usize, max_ops: usize) -> impl Strategy<Value = Hist> {
     prop_oneof![
-        3 => hist_strategy(1, max_e, max_ops, 10),
-        1 => deep_hist_strategy(max_e + 6),
+        30 => hist_strategy(1, max_e, max_ops, 10),
+        10 => deep_hist_strategy(max_e + 6),
+        1 => wide_hist_strategy(),
     ]
 }
